@@ -405,7 +405,10 @@ def _covered_by_test(cfg: CFG, node, st, flags: set[str], f: FuncInfo):
         p = getattr(p, "_parent", None)
     recv = None
     if isinstance(st, ast.Expr) and isinstance(st.value, ast.Call) and isinstance(st.value.func, ast.Attribute):
-        recv = norm(st.value.func.value)
+        recv = norm(st.value.func.value)  # X.clear() after `if X: flag = True`
+    elif isinstance(st, ast.Assign) and len(st.targets) == 1 and isinstance(st.targets[0], ast.Attribute) \
+            and isinstance(st.value, ast.Constant) and not st.value.value:
+        recv = norm(st.targets[0])  # X.f = None after `if X.f: flag = True`
     if recv:
         blk = getattr(st, "_parent", None)
         body = getattr(blk, "body", [])
